@@ -151,10 +151,21 @@ TypeClasses(chk, env, T, codec) ==
      \cup on(codec = "oer" /\ chk = "GEN" /\ TypeHas(env, T, LAMBDA t : AdditionHas(env, t, LAMBDA u : u.k = "BITS")),
              "OerBitStringInAddition")
      \cup on(codec = "oer" /\ chk = "CC"
-             /\ TypeHas(env, T, LAMBDA t : AdditionHas(env, t, LAMBDA u : u.k = "SEQOF" /\ u.sz.lb = u.sz.ub)),
-             "OerFixedSequenceOfInAddition")
+             /\ TypeHas(env, T, LAMBDA t : AdditionHas(env, t, LAMBDA u : u.k = "SEQOF" /\ (u.sz.lb = u.sz.ub \/ Base(env, u.e).k \in {"ENUM", "CHOICE"}))),
+             "OerAdditionLengthExpression")
+     \cup on(codec = "oer" /\ chk \in {"ENC", "REENC", "SMALL"} /\ TypeHas(env, T, LAMBDA t : AdditionHas(env, t, LAMBDA u : u.k = "CHOICE")),
+             "OerAdditionLengthNotActual")
      \cup on(codec = "oer" /\ (bytesChk \/ chk = "SET") /\ TypeHas(env, T, LAMBDA t : t.k = "CHOICE" /\ t.adds # <<>>),
              "OerChoiceAdditions")
+     \cup on(codec = "oer" /\ chk \in {"V1V2", "CRASH"}
+             /\ TypeHas(env, T, LAMBDA t : t.k = "SEQ" /\ t.adds # <<>> /\ Len(AddMembers(t.adds)) % 8 = 0),
+             "OerUnknownAdditionsAfterFullMaskOctet")
+     \cup on(codec = "oer" /\ chk \in {"V1V2", "CRASH", "ADV"}
+             /\ TypeHas(env, T, LAMBDA t : t.k = "SEQOF" /\ t.e.k = "SEQ" /\ t.e.adds # <<>>),
+             "OerUnknownAdditionsClobberElementIndex")
+     \cup on(codec = "oer" /\ chk \in {"DEC", "REENC", "V1V2"} /\ TypeHas(env, T, LAMBDA t : t.k = "SEQOF" /\ t.sz.lb = t.sz.ub /\ t.sz.ub > 255),
+             "OerFixedSequenceOfAbove255")
+     \cup on(codec = "oer" /\ bytesChk /\ TypeHas(env, T, LAMBDA t : t.k = "BITS" /\ t.sz.f = "R" /\ t.sz.ub = 0), "OerBitStringSizeZero")
 
 \* classes of the value
 ValueClasses(chk, env, T, v, codec) ==
